@@ -217,12 +217,17 @@ type challCircuit struct {
 	CommonCircuitData types.CommonCircuitData `gnark:"-"`
 	Out               *[]frontend.Variable    `gnark:"-"`
 	PowBits           uint64                  `gnark:"-"` // >0: also assert the PoW condition with this difficulty
+	Repeat            int                     `gnark:"-"` // number of transcripts derived on the same VerifierChip (the last one is returned)
 }
 
 func (c *challCircuit) Define(api frontend.API) error {
 	chip := verifier.NewVerifierChip(api, c.CommonCircuitData)
 	pih := chip.GetPublicInputsHash(c.PublicInputs)
 	ch := chip.GetChallenges(c.Proof, pih, c.VerifierData)
+	for i := 1; i < c.Repeat; i++ {
+		// a second proof's transcript on the same chip must start from a fresh sponge
+		ch = chip.GetChallenges(c.Proof, pih, c.VerifierData)
+	}
 	var o []frontend.Variable
 	o = append(o, limbs(ch.PlonkBetas)...)
 	o = append(o, limbs(ch.PlonkGammas)...)
@@ -257,8 +262,9 @@ func refChallengeVector(c *ref.Common, p *ref.ProofWithPIs, v *ref.VerifierOnly)
 }
 
 type c11Transcript struct {
-	Base string `json:"base"`
-	Seed string `json:"seed"` // "" = the real proof; otherwise every number/hash is re-drawn from this seed
+	Base   string `json:"base"`
+	Seed   string `json:"seed"`             // "" = the real proof; otherwise every number/hash is re-drawn from this seed
+	Repeat int    `json:"repeat,omitempty"` // derive the transcript this many times on one VerifierChip and compare the last
 }
 
 // randomiseDoc replaces every number by a pseudo-random canonical Goldilocks element and every
@@ -333,7 +339,7 @@ func c11TranscriptRun(a c11Transcript) caseResult {
 	cd := types.ReadCommonCircuitData(corp.Path(a.Base, "common_data.json"))
 	mk := func(out *[]frontend.Variable) *challCircuit {
 		pw2, _ := variables.DeserializeProofWithPublicInputs(types.ReadProofWithPublicInputsFromRequest(raw))
-		return &challCircuit{PublicInputs: pw2.PublicInputs, Proof: pw2.Proof, VerifierData: variables.DeserializeVerifierOnlyCircuitData(types.ReadVerifierOnlyCircuitDataFromRequest(vraw)), CommonCircuitData: cd, Out: out}
+		return &challCircuit{PublicInputs: pw2.PublicInputs, Proof: pw2.Proof, VerifierData: variables.DeserializeVerifierOnlyCircuitData(types.ReadVerifierOnlyCircuitDataFromRequest(vraw)), CommonCircuitData: cd, Out: out, Repeat: a.Repeat}
 	}
 	_, _ = pw, vd
 	var outs []frontend.Variable
@@ -372,7 +378,7 @@ func TestC11(t *testing.T) {
 	s := newSuite("C11")
 	r := s.r
 	defer r.Flush()
-	r.Rule("(1) histories of 0..200 challenger operations drawn by rapid from {ObserveElement, ObserveElements, ObserveHash, ObserveBN254Hash, ObserveCap, ObserveExtensionElement(s), GetChallenge, GetNChallenges, GetExtensionChallenge, GetHash} with canonical and value+k*p operands, executed in one circuit and compared squeeze by squeeze with the reference duplex challenger (model-based / stateful testing; the whole history shrinks as one value).  (2) VerifierChip.GetChallenges on the five real proofs and on transcripts of the same shape in which every field element and hash is re-drawn, compared with the reference transcript (betas, gammas, alphas, zeta, FRI alpha, FRI betas, PoW response, query indices).  (3) metamorphic: one observed value of a history changed => every squeeze after it changes, none before.  Non-trivial history = contains an observation after a squeeze and more than 8 pending observed elements (crosses the rate boundary); distinct = history.")
+	r.Rule("(1) histories of 0..200 challenger operations drawn by rapid from {ObserveElement, ObserveElements, ObserveHash, ObserveBN254Hash, ObserveCap, ObserveExtensionElement(s), GetChallenge, GetNChallenges, GetExtensionChallenge, GetHash} with canonical and value+k*p operands, executed in one circuit and compared squeeze by squeeze with the reference duplex challenger (model-based / stateful testing; the whole history shrinks as one value).  (2) VerifierChip.GetChallenges on the five real proofs and on transcripts of the same shape in which every field element and hash is re-drawn, compared with the reference transcript (betas, gammas, alphas, zeta, FRI alpha, FRI betas, PoW response, query indices); in part of the cases the transcript is derived two or three times on the same VerifierChip and the last result is compared (no state may leak between transcripts).  (3) metamorphic: one observed value of a history changed => every squeeze after it changes, none before.  Non-trivial history = contains an observation after a squeeze and more than 8 pending observed elements (crosses the rate boundary); distinct = history.")
 	r.Assume("reference Poseidon/challenger (validated by accepting the real proofs and reproducing the challenge constants of tests/fri_test.go)")
 
 	s.on("history", func(b json.RawMessage) caseResult {
@@ -468,13 +474,18 @@ func TestC11(t *testing.T) {
 	})
 	for i, b := range corp.Names {
 		if mine(i) {
-			s.exec(t, "transcript", c11Transcript{b, ""}, "transcript/real")
+			s.exec(t, "transcript", c11Transcript{Base: b, Repeat: 1 + i%2}, "transcript/real")
 		}
 	}
 	rapidCheck(t, "transcript", tierN(28, 600), func(rt *rapid.T) {
 		b := rapid.SampledFrom(corp.Names).Draw(rt, "base")
 		seed := rapid.Uint64Range(1, 1<<62).Draw(rt, "seed")
-		s.exec(rt, "transcript", c11Transcript{b, fmt.Sprint(seed)}, "transcript/random-same-shape")
+		rep := rapid.SampledFrom([]int{1, 1, 2, 3}).Draw(rt, "transcripts_on_one_chip")
+		class := "transcript/random-same-shape"
+		if rep > 1 {
+			class += "/repeated-on-one-chip"
+		}
+		s.exec(rt, "transcript", c11Transcript{Base: b, Seed: fmt.Sprint(seed), Repeat: rep}, class)
 	})
 	r.Done()
 }
